@@ -61,7 +61,11 @@ def validate_case(case, prop_id, out_dir, K=None, timeout_ms=None, range_bound=3
     try:
       D = dbm.SymDB(schema, K, case.nullable)
       try:
-        side = e1.SqlSide(text, pred, D, strings, range_bound, compaction)
+        if getattr(case, 'deep', False):
+          side = e1.WorkflowSide(text, [pred], D, strings, range_bound, compaction)
+          r['workflow_calls'] = len(side.statements)
+        else:
+          side = e1.SqlSide(text, pred, D, strings, range_bound, compaction)
       except Unsupported as e:
         r['status'] = 'not_encodable'
         r['why'] = 'sql: %s' % e
@@ -103,7 +107,7 @@ def validate_case(case, prop_id, out_dir, K=None, timeout_ms=None, range_bound=3
         r['kind'] = 'columns'
         r['detail'] = {'sql_columns': side.rel.cols, 'expected_columns': rrel.cols}
         # replay: real sqlite header
-        hdr, _ = e1.run_real(side.statements, schema, {})
+        hdr, _ = side.run_real(schema, {})
         if hdr == rrel.cols:
           r['status'] = 'harness_error'
           r['why'] = 'model columns differ from real header'
@@ -143,7 +147,7 @@ def validate_case(case, prop_id, out_dir, K=None, timeout_ms=None, range_bound=3
         model_sql = V.concretize_rel(m, side.rel, strings)
         model_ref = V.concretize_rel(m, rrel, strings)
         modes = e1.col_modes(rrel)
-        hdr, real_rows = e1.run_real(side.statements, schema, rows)
+        hdr, real_rows = side.run_real(schema, rows)
         same_model, a, b = e1.compare_concrete(real_rows, model_sql, modes)
         same_ref, a2, b2 = e1.compare_concrete(real_rows, model_ref, modes)
         if not same_model:
@@ -226,3 +230,113 @@ def selftest_case(case, rnd, ntrials=3, K=2):
       if not same or hdr != side.rel.cols:
         problems.append(('model != sqlite', pred, rows, a, b, text))
   return problems, n
+
+
+def validate_contain(case, prop_id, K=None, timeout_ms=None, compaction=True):
+  """C03 containment clause for monotone set programs under any unfolding strategy:
+  T^(depth+1)(empty) <= result <= T^(cycle*(depth+1))(empty) <= lfp."""
+  res = []
+  K = K or case.K
+  text = case.prog.text()
+  strings = V.Strings(lang.strings_of(case.prog))
+  schema = {t: dbm.SCHEMA[t] for t in case.used_tables()}
+  case.used_tables_schema = schema
+  for pred in case.check:
+    r = {'pred': pred, 'status': None, 'solver_s': 0.0, 'queries': 0, 'K': K, 'family': case.family,
+         'mode': 'contain'}
+    res.append(r)
+    t0 = time.time()
+    try:
+      D = dbm.SymDB(schema, K, case.nullable)
+      try:
+        side = e1.SqlSide(text, pred, D, strings, 3, compaction)
+      except Unsupported as e:
+        r['status'] = 'not_encodable'
+        r['why'] = 'sql: %s' % e
+        continue
+      except real.DIAGNOSTICS as e:
+        r['status'] = 'rejected'
+        r['why'] = str(e)[:200]
+        continue
+      ref = refsem.Ref(case.prog, D.store(), strings, 3, macros=case.macros, depths=case.depths,
+                       compaction=compaction)
+      d1 = case.depth + 1
+      try:
+        lower = ref.relation_after(pred, d1)
+        upper = ref.relation_after(pred, case.cycle * d1)
+      except Unsupported as e:
+        r['status'] = 'not_encodable'
+        r['why'] = 'ref: %s' % e
+        continue
+      r['slots'] = (len(side.rel.slots), len(upper.slots))
+      base = e1.solver()
+      if timeout_ms:
+        base.set('timeout', timeout_ms)
+      base.add(*D.constraints)
+      base.add(*[V.as_bool(a) for a in side.assumptions + ref.assumptions])
+      st = e1.Stats()
+      base.push()
+      base.add(V.as_bool(V.OR(*[g for g, _ in lower.slots])))
+      wit = e1.check(base, st)
+      base.pop()
+      verdicts = []
+      bad = None
+      for label, diff in (('lower', V.subset_violation(lower, side.rel)),
+                          ('upper', V.subset_violation(side.rel, upper))):
+        base.push()
+        base.add(V.as_bool(diff))
+        v = e1.check(base, st)
+        verdicts.append(v)
+        if v == 'sat':
+          m = base.model()
+          rows = D.rows_of(m)
+          hdr, real_rows = e1.run_real(side.statements, schema, rows)
+          real_set = set(e1.rows_key(real_rows))
+          model_set = set(e1.rows_key(V.concretize_rel(m, side.rel, strings)))
+          low_set = set(e1.rows_key(V.concretize_rel(m, lower, strings)))
+          # true least fixpoint on this database: iterate the reference until stable
+          prev = None
+          n = case.cycle * d1
+          while True:
+            cur = set(e1.rows_key(V.concretize_rel(m, ref.relation_after(pred, n), strings)))
+            if cur == prev or n > case.cycle * d1 + 40:
+              break
+            prev = cur
+            n += 1
+          lfp = cur
+          if real_set != model_set:
+            bad = ('harness_error', 'SQL model disagrees with real SQLite', rows, sorted(real_set), sorted(model_set))
+          elif label == 'lower' and low_set <= real_set:
+            bad = ('harness_error', 'lower-bound counterexample does not reproduce', rows, sorted(real_set), sorted(low_set))
+          elif label == 'upper' and real_set <= lfp:
+            # inside the least fixpoint: the syntactic upper bound was too tight, not a violation
+            bad = ('unknown', 'result exceeds T^(c(d+1)) but is inside the least fixpoint', rows, sorted(real_set), sorted(lfp))
+          else:
+            bad = ('violation', label, rows, sorted(real_set), sorted(low_set if label == 'lower' else lfp))
+        base.pop()
+        if bad:
+          break
+      r['solver_s'] = st.solver_s
+      r['queries'] = st.queries
+      if bad:
+        r['status'] = bad[0]
+        r['why'] = bad[1]
+        if bad[0] == 'violation':
+          r['kind'] = 'containment-' + bad[1]
+          r['replay'] = {'property': prop_id, 'program': text, 'pred': pred, 'db': bad[2],
+                         'schema': schema, 'statements': side.statements, 'real_rows': bad[3],
+                         'expected_rows': bad[4],
+                         'expected_is': ('must contain T^(depth+1)(empty)' if bad[1] == 'lower'
+                                         else 'must be inside the least fixpoint')}
+        else:
+          r['detail'] = {'db': bad[2], 'real': bad[3], 'other': bad[4], 'program': text}
+      elif all(v == 'unsat' for v in verdicts):
+        r['status'] = 'trivial' if wit == 'unsat' else 'proved'
+      else:
+        r['status'] = 'unknown'
+    except Exception:  # noqa: BLE001
+      r['status'] = 'harness_error'
+      r['why'] = 'exception: %s' % (traceback.format_exc()[-1500:],)
+    finally:
+      r['wall_s'] = time.time() - t0
+  return {'text': text, 'results': res, 'family': case.family, 'notes': case.notes}
